@@ -331,3 +331,482 @@ Section History.
         apply (Hx q (f_tag o) (set_w e w1) x1 x2 Hq).
   Qed.
 End History.
+
+(* ------------------------------------------------------------------------------------ *)
+(** * The plan cache under every schedule *)
+
+Lemma Forall_replace_nth {A} (Q : A -> Prop) : forall l n x,
+  Forall Q l -> Q x -> Forall Q (replace_nth n x l).
+Proof.
+  induction l as [|y l IH]; intros n x Hl Hx; destruct n; cbn [replace_nth]; try constructor;
+    inversion Hl; subst; auto.
+Qed.
+
+Lemma nth_error_replace_nth_same {A} : forall (l : list A) n x y,
+  nth_error l n = Some y -> nth_error (replace_nth n x l) n = Some x.
+Proof.
+  induction l as [|z l IH]; intros n x y H; destruct n; cbn in *; try discriminate; [reflexivity|].
+  eapply IH; exact H.
+Qed.
+
+Lemma nth_error_replace_nth_other {A} : forall (l : list A) n m x,
+  n <> m -> nth_error (replace_nth n x l) m = nth_error l m.
+Proof.
+  induction l as [|z l IH]; intros n m x H; destruct n, m; cbn; try reflexivity; try congruence.
+  apply IH. congruence.
+Qed.
+
+Lemma length_replace_nth {A} : forall (l : list A) n x, length (replace_nth n x l) = length l.
+Proof. induction l as [|z l IH]; intros n x; destruct n; cbn; auto. Qed.
+
+Section CacheProofs.
+  Variable P : Type.
+  Variable deps : Z -> list Z.
+  Variable mk : Z -> list P -> option P.
+
+  (** [pure ty]: the plan of [ty] computed without any cache ([None]: building it panics).
+      The only thing assumed: building [ty] from the pure plans of its dependencies gives
+      the pure plan of [ty] (the builder is a function of the type alone: registries are
+      constant after init). *)
+  Variable pure : Z -> option P.
+  Hypothesis pure_mk : forall ty subs,
+    Forall2 (fun d p => pure d = Some p) (deps ty) subs -> mk ty subs = pure ty.
+
+  Notation frame := (frame P).
+  Notation tstate := (tstate P).
+  Notation sys := (sys P).
+  Notation step_thread := (step_thread P deps mk).
+  Notation step_sys := (step_sys P deps mk).
+  Notation run_sched := (run_sched P deps mk).
+  Notation resume := (resume P mk).
+  Notation deliver := (deliver P mk).
+  Notation next_msg := (next_msg P).
+
+  Definition is_pure (d : Z) (p : P) : Prop := pure d = Some p.
+
+  Definition cache_ok (c : list (Z * P)) : Prop := forall ty p, clookup c ty = Some p -> is_pure ty p.
+
+  (** A frame that waits for the plan of [waiting]: the dependencies before it have been
+      answered with their pure plans, the ones after it are still to do. *)
+  Definition frame_ok (waiting : Z) (fr : frame) : Prop :=
+    exists done, deps (fr_ty fr) = done ++ waiting :: fr_todo fr /\ Forall2 is_pure done (fr_got fr).
+
+  Fixpoint stack_ok (waiting : Z) (st : list frame) : Prop :=
+    match st with
+    | [] => True
+    | fr :: rest => frame_ok waiting fr /\ stack_ok (fr_ty fr) rest
+    end.
+
+  Definition res_ok (res : list (Z * P)) : Prop := Forall (fun r => is_pure (fst r) (snd r)) res.
+
+  Definition thread_ok (t : tstate) : Prop :=
+    match t with
+    | TRun (AtLoad ty) st _ _ res => stack_ok ty st /\ res_ok res
+    | TRun (AtStore ty p) st _ _ res => is_pure ty p /\ stack_ok ty st /\ res_ok res
+    | TDone res => res_ok res
+    end.
+
+  Definition sys_ok (s : sys) : Prop := cache_ok (fst s) /\ Forall thread_ok (snd s).
+
+  Lemma next_msg_ok : forall later res, res_ok res -> thread_ok (next_msg later res).
+  Proof.
+    induction later as [|g gs IH]; intros res H; cbn [next_msg]; [exact H|].
+    destruct g as [|j js]; [apply IH; exact H|]. cbn [thread_ok stack_ok]. split; [exact Logic.I|exact H].
+  Qed.
+
+  (** A frame that is not waiting for anything. *)
+  Definition frame_ready (fr : frame) : Prop :=
+    exists done, deps (fr_ty fr) = done ++ fr_todo fr /\ Forall2 is_pure done (fr_got fr).
+
+  Lemma resume_ok : forall fr st cur later res,
+    frame_ready fr -> stack_ok (fr_ty fr) st -> res_ok res -> thread_ok (resume fr st cur later res).
+  Proof.
+    intros [ty todo got] st cur later res [done [Hd Hg]] Hst Hres. unfold CodecState.resume.
+    cbn [fr_ty fr_todo fr_got] in *. destruct todo as [|d ds].
+    - rewrite app_nil_r in Hd. rewrite (pure_mk ty got) by (rewrite Hd; exact Hg).
+      destruct (pure ty) as [p|] eqn:Hp.
+      + cbn [thread_ok]. repeat split; assumption.
+      + apply next_msg_ok. exact Hres.
+    - cbn [thread_ok stack_ok]. repeat split; try assumption.
+      exists done. cbn [fr_ty fr_todo fr_got]. split; assumption.
+  Qed.
+
+  Lemma deliver_ok : forall ty p st cur later res,
+    is_pure ty p -> stack_ok ty st -> res_ok res -> thread_ok (deliver ty p st cur later res).
+  Proof.
+    intros ty p st cur later res Hp Hst Hres. unfold CodecState.deliver. destruct st as [|fr rest].
+    - assert (Hres' : res_ok (res ++ [(ty, p)])).
+      { apply Forall_app. split; [exact Hres|]. constructor; [exact Hp|constructor]. }
+      destruct cur as [|j js].
+      + apply next_msg_ok. exact Hres'.
+      + cbn [thread_ok stack_ok]. split; [exact Logic.I|exact Hres'].
+    - destruct Hst as [[done [Hd Hg]] Hrest]. apply resume_ok; cbn [fr_ty fr_todo fr_got]; try assumption.
+      exists (done ++ [ty]). split.
+      + rewrite <- app_assoc. exact Hd.
+      + apply Forall2_app; [exact Hg|]. constructor; [exact Hp|constructor].
+  Qed.
+
+  Lemma step_thread_ok : forall c t,
+    cache_ok c -> thread_ok t -> cache_ok (fst (step_thread c t)) /\ thread_ok (snd (step_thread c t)).
+  Proof.
+    intros c t Hc Ht. destruct t as [[ty|ty p] st cur later res|res]; cbn [CodecState.step_thread].
+    - destruct Ht as [Hst Hres]. destruct (clookup c ty) as [p|] eqn:Hl; cbn [fst snd].
+      + split; [exact Hc|]. apply deliver_ok; try assumption. apply Hc. exact Hl.
+      + split; [exact Hc|]. apply resume_ok; cbn [fr_ty]; try assumption.
+        exists []. cbn [fr_ty fr_todo fr_got app]. split; [reflexivity|constructor].
+    - destruct Ht as [Hp [Hst Hres]]. cbn [fst snd]. split.
+      + intros ty' p' H. cbn [clookup] in H. destruct (ty =? ty') eqn:He.
+        * apply Z.eqb_eq in He. subst. inversion H; subst. exact Hp.
+        * apply Hc. exact H.
+      + apply deliver_ok; assumption.
+    - cbn [fst snd]. split; assumption.
+  Qed.
+
+  Lemma step_sys_ok : forall s i, sys_ok s -> sys_ok (step_sys s i).
+  Proof.
+    intros [c ts] i [Hc Hts]. unfold CodecState.step_sys. cbn [fst snd] in *.
+    destruct (nth_error ts i) as [t|] eqn:Hn; [|split; assumption].
+    assert (Ht : thread_ok t).
+    { rewrite Forall_forall in Hts. apply Hts. eapply nth_error_In. exact Hn. }
+    destruct (step_thread_ok c t Hc Ht) as [Hc' Ht'].
+    destruct (step_thread c t) as [c' t']. cbn [fst snd] in *. split; [exact Hc'|].
+    apply Forall_replace_nth; assumption.
+  Qed.
+
+  (** Every state reached under any schedule, of any length, with any number of threads:
+      every cached plan is the pure plan of its type, and so is everything any thread has
+      been handed or is about to store. *)
+  Theorem run_sched_ok : forall sched s, sys_ok s -> sys_ok (run_sched sched s).
+  Proof.
+    induction sched as [|i sched IH]; intros s H; cbn [CodecState.run_sched fold_left]; [exact H|].
+    apply IH. apply step_sys_ok. exact H.
+  Qed.
+
+  Lemma init_sys_ok : forall c jobs, cache_ok c -> sys_ok (init_sys c jobs).
+  Proof.
+    intros c jobs Hc. split; [exact Hc|]. cbn [init_sys snd]. apply Forall_forall. intros t Ht.
+    apply in_map_iff in Ht. destruct Ht as [j [<- _]]. apply next_msg_ok. constructor.
+  Qed.
+
+  Lemma cache_ok_nil : cache_ok [].
+  Proof. intros ty p H. discriminate. Qed.
+
+  Theorem cache_sound_any_schedule : forall jobs sched,
+    let s := run_sched sched (init_sys [] jobs) in
+    (forall ty p, clookup (fst s) ty = Some p -> pure ty = Some p) /\
+    (forall t, In t (snd s) -> forall ty p, In (ty, p) (t_results t) -> pure ty = Some p).
+  Proof.
+    intros jobs sched s.
+    assert (H : sys_ok s) by (apply run_sched_ok; apply init_sys_ok; apply cache_ok_nil).
+    destruct H as [Hc Hts]. split; [exact Hc|].
+    intros t Ht ty p Hin. rewrite Forall_forall in Hts. specialize (Hts t Ht).
+    assert (Hr : res_ok (t_results t)).
+    { destruct t as [[ty'|ty' p'] st cur later res|res]; cbn [thread_ok t_results] in *; tauto. }
+    unfold res_ok in Hr. rewrite Forall_forall in Hr. apply (Hr (ty, p)). exact Hin.
+  Qed.
+
+  (* ---------------------------------------------------------------------------------- *)
+  (** ** No spurious panic: lookups of buildable types succeed with the pure plan *)
+
+  Hypothesis pure_deps : forall ty p, pure ty = Some p ->
+    forall d, In d (deps ty) -> exists q, pure d = Some q.
+
+  Definition has_pure (ty : Z) : Prop := exists p, pure ty = Some p.
+
+  Definition pend_ty (pd : pend P) : Z := match pd with AtLoad ty => ty | AtStore ty _ => ty end.
+
+  (** The type of the top-level lookup in progress. *)
+  Definition bottom (pd : pend P) (st : list frame) : Z := last (map (@fr_ty P) st) (pend_ty pd).
+
+  Definition thread_good (orig : list (list Z)) (t : tstate) : Prop :=
+    match t with
+    | TRun pd st cur later res =>
+        has_pure (pend_ty pd) /\ Forall (fun fr => has_pure (fr_ty fr)) st /\
+        map fst res ++ bottom pd st :: cur ++ concat later = concat orig
+    | TDone res => map fst res = concat orig
+    end.
+
+  Lemma last_cons {A} : forall (l : list A) a d, last (a :: l) d = last l a.
+  Proof. induction l as [|b l IH]; intros a d; [reflexivity|]. cbn [last] in *. destruct l; [reflexivity|]. apply IH. Qed.
+
+  Section Good.
+    Variable orig : list (list Z).
+    Hypothesis good : forall ty, In ty (concat orig) -> has_pure ty.
+
+    Lemma next_msg_good : forall later res,
+      map fst res ++ concat later = concat orig -> thread_good orig (next_msg later res).
+    Proof.
+      induction later as [|g gs IH]; intros res H; cbn [next_msg].
+      - cbn [concat] in H. rewrite app_nil_r in H. exact H.
+      - destruct g as [|j js]; [apply IH; exact H|].
+        cbn [thread_good]. unfold bottom. cbn [pend_ty map last]. split; [|split; [constructor|]].
+        + apply good. rewrite <- H. apply in_or_app. right. cbn [concat app]. left. reflexivity.
+        + cbn [concat app] in H. rewrite <- H. reflexivity.
+    Qed.
+
+    Lemma resume_good : forall fr st cur later res,
+      frame_ready fr -> has_pure (fr_ty fr) -> Forall (fun fr => has_pure (fr_ty fr)) st ->
+      map fst res ++ last (map (@fr_ty P) st) (fr_ty fr) :: cur ++ concat later = concat orig ->
+      thread_good orig (resume fr st cur later res).
+    Proof.
+      intros [ty todo got] st cur later res [done [Hd Hg]] Hp Hst Hprog. unfold CodecState.resume.
+      cbn [fr_ty fr_todo fr_got] in *. destruct todo as [|d ds].
+      - rewrite app_nil_r in Hd. rewrite (pure_mk ty got) by (rewrite Hd; exact Hg).
+        destruct Hp as [p Hp]. rewrite Hp. cbn [thread_good]. unfold bottom. cbn [pend_ty].
+        split; [exists p; exact Hp|]. split; [exact Hst|exact Hprog].
+      - cbn [thread_good]. unfold bottom. cbn [pend_ty map fr_ty]. split; [|split].
+        + destruct Hp as [p Hp]. apply (pure_deps ty p Hp). rewrite Hd. apply in_or_app. right. left. reflexivity.
+        + constructor; [exact Hp|exact Hst].
+        + rewrite last_cons. exact Hprog.
+    Qed.
+
+    Lemma deliver_good : forall pd p st cur later res,
+      is_pure (pend_ty pd) p -> stack_ok (pend_ty pd) st ->
+      Forall (fun fr => has_pure (fr_ty fr)) st ->
+      map fst res ++ bottom pd st :: cur ++ concat later = concat orig ->
+      thread_good orig (deliver (pend_ty pd) p st cur later res).
+    Proof.
+      intros pd p st cur later res Hp Hok Hst Hprog. unfold CodecState.deliver. destruct st as [|fr rest].
+      - unfold bottom in Hprog. cbn [map last] in Hprog. destruct cur as [|j js].
+        + apply next_msg_good. rewrite map_app. cbn [map fst]. rewrite <- app_assoc. exact Hprog.
+        + cbn [thread_good]. unfold bottom. cbn [pend_ty map last]. split; [|split; [constructor|]].
+          * apply good. rewrite <- Hprog. apply in_or_app. right. right. left. reflexivity.
+          * rewrite map_app. cbn [map fst]. rewrite <- app_assoc. exact Hprog.
+      - destruct Hok as [[done [Hd Hg]] Hrest]. inversion Hst as [|? ? Hfr Hrs]; subst.
+        apply resume_good; cbn [fr_ty fr_todo fr_got]; try assumption.
+        + exists (done ++ [pend_ty pd]). split; [rewrite <- app_assoc; exact Hd|].
+          apply Forall2_app; [exact Hg|]. constructor; [exact Hp|constructor].
+        + unfold bottom in Hprog. cbn [map] in Hprog. rewrite last_cons in Hprog. exact Hprog.
+    Qed.
+
+    Lemma step_thread_good : forall c t,
+      cache_ok c -> thread_ok t -> thread_good orig t -> thread_good orig (snd (step_thread c t)).
+    Proof.
+      intros c t Hc Ht Hg. destruct t as [[ty|ty p] st cur later res|res]; cbn [CodecState.step_thread].
+      - destruct Ht as [Hst Hres]. destruct Hg as [Hp [Hfs Hprog]].
+        destruct (clookup c ty) as [p|] eqn:Hl; cbn [snd].
+        + apply (deliver_good (AtLoad ty)); try assumption. apply Hc. exact Hl.
+        + apply resume_good; cbn [fr_ty]; try assumption.
+          exists []. cbn [fr_ty fr_todo fr_got app]. split; [reflexivity|constructor].
+      - destruct Ht as [Hp [Hst Hres]]. destruct Hg as [Hp' [Hfs Hprog]]. cbn [snd].
+        apply (deliver_good (AtStore ty p)); assumption.
+      - exact Hg.
+    Qed.
+  End Good.
+
+  Definition sys_good (origs : list (list (list Z))) (s : sys) : Prop :=
+    Forall2 thread_good origs (snd s).
+
+  Lemma Forall2_replace_nth {A B} (R : A -> B -> Prop) : forall la lb n y,
+    Forall2 R la lb -> (forall a, nth_error la n = Some a -> R a y) -> Forall2 R la (replace_nth n y lb).
+  Proof.
+    induction la as [|a la IH]; intros lb n y H Hy; inversion H; subst; destruct n; cbn [replace_nth];
+      try constructor; auto.
+  Qed.
+
+  Lemma Forall2_nth_error {A B} (R : A -> B -> Prop) : forall la lb n b,
+    Forall2 R la lb -> nth_error lb n = Some b -> exists a, nth_error la n = Some a /\ R a b.
+  Proof.
+    induction la as [|a la IH]; intros lb n b H Hn; inversion H; subst.
+    - destruct n; discriminate.
+    - destruct n; cbn in *.
+      + inversion Hn; subst. exists a. split; [reflexivity|assumption].
+      + eapply IH; eassumption.
+  Qed.
+
+  Lemma step_sys_good : forall origs s i,
+    (forall orig, In orig origs -> forall ty, In ty (concat orig) -> has_pure ty) ->
+    sys_ok s -> sys_good origs s -> sys_good origs (step_sys s i).
+  Proof.
+    intros origs [c ts] i Hgood [Hc Hts] Hg. unfold sys_good, CodecState.step_sys in *. cbn [fst snd] in *.
+    destruct (nth_error ts i) as [t|] eqn:Hn; [|exact Hg].
+    destruct (Forall2_nth_error _ _ _ _ _ Hg Hn) as [orig [Ho Hgt]].
+    assert (Ht : thread_ok t).
+    { rewrite Forall_forall in Hts. apply Hts. eapply nth_error_In. exact Hn. }
+    pose proof (step_thread_good orig (Hgood orig (nth_error_In _ _ Ho)) c t Hc Ht Hgt) as Hg'.
+    destruct (step_thread c t) as [c' t']. cbn [fst snd] in *.
+    apply Forall2_replace_nth; [exact Hg|]. intros a Ha. rewrite Ho in Ha. inversion Ha; subst. exact Hg'.
+  Qed.
+
+  Lemma run_sched_good : forall origs,
+    (forall orig, In orig origs -> forall ty, In ty (concat orig) -> has_pure ty) ->
+    forall sched s, sys_ok s -> sys_good origs s ->
+    sys_ok (run_sched sched s) /\ sys_good origs (run_sched sched s).
+  Proof.
+    intros origs Hgood. induction sched as [|i sched IH]; intros s Hok Hg;
+      cbn [CodecState.run_sched fold_left]; [split; assumption|].
+    apply IH; [apply step_sys_ok; exact Hok|apply step_sys_good; assumption].
+  Qed.
+
+  Lemma init_sys_good : forall c jobs,
+    (forall orig, In orig jobs -> forall ty, In ty (concat orig) -> has_pure ty) ->
+    sys_good jobs (init_sys c jobs).
+  Proof.
+    intros c jobs Hgood. unfold sys_good, init_sys. cbn [snd].
+    induction jobs as [|j jobs IH]; cbn [map]; constructor.
+    - apply next_msg_good; [apply Hgood; left; reflexivity|reflexivity].
+    - apply IH. intros orig Ho. apply Hgood. right. exact Ho.
+  Qed.
+
+  (** A thread that has finished, under whatever schedule, has been handed for each of its
+      lookups, in order, exactly the pure plan of the type it asked for. *)
+  Theorem finished_thread_results : forall jobs sched i orig res,
+    (forall orig, In orig jobs -> forall ty, In ty (concat orig) -> has_pure ty) ->
+    nth_error jobs i = Some orig ->
+    nth_error (snd (run_sched sched (init_sys [] jobs))) i = Some (TDone res) ->
+    map (fun r => (fst r, Some (snd r))) res = map (fun ty => (ty, pure ty)) (concat orig).
+  Proof.
+    intros jobs sched i orig res Hgood Ho Hn.
+    destruct (run_sched_good jobs Hgood sched (init_sys [] jobs)) as [[Hc Hts] Hg].
+    { apply init_sys_ok. apply cache_ok_nil. }
+    { apply init_sys_good. exact Hgood. }
+    destruct (Forall2_nth_error _ _ _ _ _ Hg Hn) as [orig' [Ho' Hgt]].
+    rewrite Ho in Ho'. inversion Ho'; subst orig'. cbn [thread_good] in Hgt.
+    rewrite Forall_forall in Hts. pose proof (Hts _ (nth_error_In _ _ Hn)) as Hr. cbn [thread_ok] in Hr.
+    rewrite <- Hgt. clear - Hr. induction Hr as [|[ty p] res Hp _ IH]; [reflexivity|].
+    cbn [map fst snd]. rewrite IH. unfold is_pure in Hp. cbn [fst snd] in Hp. rewrite Hp. reflexivity.
+  Qed.
+
+  (* ---------------------------------------------------------------------------------- *)
+  (** ** Termination: a thread stops after a bounded number of its own steps *)
+
+  (** [cost ty]: an upper bound of the cache accesses of one lookup of [ty].  Such a
+      function exists exactly when the dependency graph has no cycle (the codec stores no
+      placeholder while a plan is being built: a type that contains itself would make
+      [encodeFunc] recurse for ever, with or without concurrency). *)
+  Variable cost : Z -> nat.
+  Hypothesis cost_eq : forall ty, cost ty = (2 + list_sum (map cost (deps ty)))%nat.
+
+  Lemma list_sum_cons : forall a l, list_sum (a :: l) = (a + list_sum l)%nat.
+  Proof. reflexivity. Qed.
+
+  Lemma in_le_sum : forall x l, In x l -> (cost x <= list_sum (map cost l))%nat.
+  Proof.
+    intros x l. induction l as [|d ds IH]; intros Hin; [destruct Hin|].
+    cbn [map]. rewrite list_sum_cons. destruct Hin as [Hd|Hin]; [subst; lia|]. specialize (IH Hin). lia.
+  Qed.
+
+  Lemma cost_excludes_cycles : forall ty, ~ In ty (deps ty).
+  Proof.
+    intros ty Hin. pose proof (cost_eq ty) as H. pose proof (in_le_sum ty (deps ty) Hin). lia.
+  Qed.
+
+  Definition sumc (l : list Z) : nat := list_sum (map cost l).
+  Definition mu_frame (fr : frame) : nat := (1 + sumc (fr_todo fr))%nat.
+  Definition mu_pend (pd : pend P) : nat := match pd with AtLoad ty => cost ty | AtStore _ _ => 1%nat end.
+  Definition mu (t : tstate) : nat :=
+    match t with
+    | TRun pd st cur later _ =>
+        (mu_pend pd + list_sum (map mu_frame st) + sumc cur + list_sum (map sumc later))%nat
+    | TDone _ => 0%nat
+    end.
+
+  Ltac norm_sum := unfold mu_frame in *; unfold sumc in *; unfold list_sum in *; cbn [map fold_right fr_todo] in *.
+
+  Lemma mu_next_msg : forall later res, mu (next_msg later res) = list_sum (map sumc later).
+  Proof.
+    induction later as [|g gs IH]; intros res; cbn [next_msg]; [reflexivity|].
+    destruct g as [|j js].
+    - rewrite IH. norm_sum. reflexivity.
+    - cbn [mu mu_pend]. norm_sum. lia.
+  Qed.
+
+  Lemma mu_resume : forall fr st cur later res,
+    (mu (resume fr st cur later res) <=
+     mu_frame fr + list_sum (map mu_frame st) + sumc cur + list_sum (map sumc later))%nat.
+  Proof.
+    intros [ty todo got] st cur later res. unfold CodecState.resume. cbn [fr_ty fr_todo fr_got].
+    destruct todo as [|d ds].
+    - destruct (mk ty got).
+      + cbn [mu mu_pend]. norm_sum. lia.
+      + rewrite mu_next_msg. norm_sum. lia.
+    - cbn [mu mu_pend]. norm_sum. lia.
+  Qed.
+
+  Lemma mu_deliver : forall ty p st cur later res,
+    (mu (deliver ty p st cur later res) <=
+     list_sum (map mu_frame st) + sumc cur + list_sum (map sumc later))%nat.
+  Proof.
+    intros ty p st cur later res. unfold CodecState.deliver. destruct st as [|fr rest].
+    - destruct cur as [|j js].
+      + rewrite mu_next_msg. norm_sum. lia.
+      + cbn [mu mu_pend]. norm_sum. lia.
+    - eapply Nat.le_trans; [apply mu_resume|]. norm_sum. lia.
+  Qed.
+
+  Lemma cost_pos : forall ty, (2 <= cost ty)%nat.
+  Proof. intros ty. rewrite cost_eq. lia. Qed.
+
+  Lemma mu_step : forall c t, t_running t = true -> (mu (snd (step_thread c t)) + 1 <= mu t)%nat.
+  Proof.
+    intros c t Hr. destruct t as [[ty|ty p] st cur later res|res]; [| |discriminate];
+      cbn [CodecState.step_thread].
+    - destruct (clookup c ty); cbn [snd].
+      + pose proof (mu_deliver ty p st cur later res). pose proof (cost_pos ty). cbn [mu mu_pend]. lia.
+      + pose proof (mu_resume (Frame ty (deps ty) []) st cur later res) as H.
+        pose proof (cost_eq ty). cbn [mu mu_pend]. norm_sum. lia.
+    - cbn [snd]. pose proof (mu_deliver ty p st cur later res). cbn [mu mu_pend]. lia.
+  Qed.
+
+  Lemma mu_zero_done : forall t, mu t = 0%nat -> t_running t = false.
+  Proof.
+    intros [[ty|ty p] st cur later res|res] H; [| |reflexivity]; cbn [mu mu_pend] in H.
+    - pose proof (cost_pos ty). lia.
+    - lia.
+  Qed.
+
+  Lemma step_sys_other : forall s i j, i <> j -> nth_error (snd (step_sys s i)) j = nth_error (snd s) j.
+  Proof.
+    intros [c ts] i j Hij. unfold CodecState.step_sys. cbn [fst snd].
+    destruct (nth_error ts i) as [t|]; [|reflexivity].
+    destruct (step_thread c t) as [c' t']. cbn [snd]. apply nth_error_replace_nth_other. exact Hij.
+  Qed.
+
+  Lemma step_sys_same : forall s i t,
+    nth_error (snd s) i = Some t ->
+    nth_error (snd (step_sys s i)) i = Some (snd (step_thread (fst s) t)).
+  Proof.
+    intros [c ts] i t Hn. unfold CodecState.step_sys. cbn [fst snd] in *. rewrite Hn.
+    destruct (step_thread c t) as [c' t'] eqn:Hs. cbn [snd].
+    eapply nth_error_replace_nth_same. exact Hn.
+  Qed.
+
+  Lemma step_thread_done : forall c t, t_running t = false -> snd (step_thread c t) = t.
+  Proof. intros c [pd st cur later res|res] H; [discriminate|reflexivity]. Qed.
+
+  (** Under any schedule, thread [i]'s remaining work shrinks by one with each of its turns. *)
+  Theorem mu_run_sched : forall sched s i t,
+    nth_error (snd s) i = Some t ->
+    exists t', nth_error (snd (run_sched sched s)) i = Some t' /\
+               (mu t' <= mu t - count_occ Nat.eq_dec sched i)%nat.
+  Proof.
+    induction sched as [|j sched IH]; intros s i t Hn; cbn [CodecState.run_sched fold_left count_occ].
+    - exists t. split; [exact Hn|lia].
+    - destruct (Nat.eq_dec j i) as [->|Hji].
+      + pose proof (step_sys_same s i t Hn) as Hs.
+        destruct (IH _ _ _ Hs) as [t' [Hn' Hle]]. exists t'. split; [exact Hn'|].
+        destruct (t_running t) eqn:Hr.
+        * pose proof (mu_step (fst s) t Hr). lia.
+        * rewrite step_thread_done in Hle by exact Hr.
+          assert (Hz : mu t = 0%nat) by (destruct t; [discriminate|reflexivity]). lia.
+      + assert (Hs : nth_error (snd (step_sys s j)) i = Some t) by (rewrite step_sys_other; assumption).
+        destruct (IH _ _ _ Hs) as [t' [Hn' Hle]]. exists t'. split; assumption.
+  Qed.
+
+  (** Hence: in every schedule that gives thread [i] at least [mu] turns, thread [i] has
+      finished - whatever the other threads did in between. *)
+  Theorem thread_terminates : forall jobs sched i orig,
+    nth_error jobs i = Some orig ->
+    (list_sum (map sumc orig) <= count_occ Nat.eq_dec sched i)%nat ->
+    exists res, nth_error (snd (run_sched sched (init_sys [] jobs))) i = Some (TDone res).
+  Proof.
+    intros jobs sched i orig Ho Hc.
+    assert (Hn : nth_error (snd (init_sys (P:=P) [] jobs)) i = Some (init_thread orig)).
+    { cbn [init_sys snd]. rewrite nth_error_map. rewrite Ho. reflexivity. }
+    destruct (mu_run_sched sched _ _ _ Hn) as [t' [Hn' Hle]].
+    unfold init_thread in Hle. rewrite mu_next_msg in Hle.
+    assert (Hz : mu t' = 0%nat) by lia.
+    apply mu_zero_done in Hz. destruct t' as [pd st cur later res|res]; [discriminate|].
+    exists res. exact Hn'.
+  Qed.
+End CacheProofs.
